@@ -52,9 +52,10 @@ theorem pointwise_run (g : α → β) (ann : Ann ρ χ μ) : ∀ (cs : List (Lis
     · simp
 
 /-! ### iirfilter -/
-theorem iir_run (m : Mealy α β S) (init : α → S) (ann : Ann ρ χ μ) :
+theorem iir_run (m : Mealy α β S) (lf : S → List α → List β × S) (hlf : LfilterIs lf m) (init : α → S)
+    (ann : Ann ρ χ μ) :
     ∀ (cs : List (List α)) (st : S) (s : Int),
-    ∃ bs, outputs (runStage (iirStep m init) (some st) (stream ann s cs)) = .ok bs
+    ∃ bs, outputs (runStage (iirStep lf init) (some st) (stream ann s cs)) = .ok bs
       ∧ Emits bs (m.run st cs.flatten).1 1 s ann := by
   intro cs
   induction cs with
@@ -64,7 +65,7 @@ theorem iir_run (m : Mealy α β S) (init : α → S) (ann : Ann ρ χ μ) :
     rw [stream_cons]
     refine run_emit_one (s' := some (m.run st c).2) (t' := s + c.length)
       { data := (m.run st c).1, s0 := s, ann := ann }
-      (by simp [iirStep, iirInit, PD.withData]) (ih _ _) rfl rfl ?_ ?_
+      (by simp [iirStep, iirInit, PD.withData, lfGuard_eq hlf]) (ih _ _) rfl rfl ?_ ?_
     · simp [PD.len, Mealy.run_length]
     · simp [Mealy.run_append]
 
